@@ -1071,6 +1071,19 @@ class PandasModelBase(
             on_b = [scratch_col]
             left[scratch_col] = 1
             right[scratch_col] = 1
+        # a null key matches nothing in SQL; pandas.merge pairs null keys with each other,
+        # so rows with a null key are set aside and come back unmatched where the join type keeps them
+        null_key_left = None
+        null_key_right = None
+        if scratch_col is None:
+            left_has_null_key = left[on_a].isnull().any(axis=1)
+            if left_has_null_key.any():
+                null_key_left = left.loc[left_has_null_key, :]
+                left = left.loc[~left_has_null_key, :]
+            right_has_null_key = right[on_b].isnull().any(axis=1)
+            if right_has_null_key.any():
+                null_key_right = right.loc[right_has_null_key, :]
+                right = right.loc[~right_has_null_key, :]
         # noinspection PyUnresolvedReferences
         res = self.pd.merge(
             left=left,
@@ -1090,6 +1103,14 @@ class PandasModelBase(
                 is_null = res[c].isnull()
                 res.loc[is_null, c] = res.loc[is_null, c + "_tmp_right_col"]
                 res = res.drop(c + "_tmp_right_col", axis=1, inplace=False)
+        how = self.standardize_join_code_(op.jointype)
+        unmatched = []
+        if (null_key_left is not None) and (how in ["left", "outer"]):
+            unmatched.append(null_key_left.reindex(columns=res.columns))
+        if (null_key_right is not None) and (how in ["right", "outer"]):
+            unmatched.append(null_key_right.reindex(columns=res.columns))
+        if len(unmatched) > 0:
+            res = self.pd.concat([res] + unmatched, axis=0, ignore_index=True)
         self.drop_indices(res)
         return res
 
